@@ -11,9 +11,25 @@ import (
 	"github.com/tetratelabs/wazero/internal/wasm"
 )
 
+// checkVectorSize returns an error if a vector declares more elements (or a byte string more
+// bytes) than there is input left. Every element takes at least one byte, so such a vector can't
+// be decoded anyway: failing before allocating keeps memory proportional to the input size.
+func checkVectorSize(r *bytes.Reader, size uint64) error {
+	if left := uint64(r.Len()); size > left {
+		if left == 0 {
+			return io.EOF // same errors as io.ReadFull would return after allocating.
+		}
+		return io.ErrUnexpectedEOF
+	}
+	return nil
+}
+
 func decodeValueTypes(r *bytes.Reader, num uint32) ([]wasm.ValueType, error) {
 	if num == 0 {
 		return nil, nil
+	}
+	if err := checkVectorSize(r, uint64(num)); err != nil {
+		return nil, err
 	}
 
 	ret := make([]wasm.ValueType, num)
@@ -45,6 +61,9 @@ func decodeUTF8(r *bytes.Reader, contextFormat string, contextArgs ...interface{
 		return "", uint32(sizeOfSize), nil
 	}
 
+	if err = checkVectorSize(r, uint64(size)); err != nil {
+		return "", 0, fmt.Errorf("failed to read %s: %w", fmt.Sprintf(contextFormat, contextArgs...), err)
+	}
 	buf := make([]byte, size)
 	if _, err = io.ReadFull(r, buf); err != nil {
 		return "", 0, fmt.Errorf("failed to read %s: %w", fmt.Sprintf(contextFormat, contextArgs...), err)
